@@ -546,6 +546,14 @@ fn parse_one<L: Language + 'static>(kind: &str, text: &str) -> String {
     let r = catch_unwind(AssertUnwindSafe(|| match kind {
         "pattern" => match Pattern::<L>::parse(text) { Ok(p) => format!("ok wf={} {}", wf_pattern(&p), p), Err(_) => "err".to_string() },
         "recexpr" => match RecExpr::<L>::parse(text) { Ok(p) => format!("ok wf=true {}", p), Err(_) => "err".to_string() },
+        "slottok" => {
+            // the text is one slot token "$name": the slot the parser produces for it (inside the first one-slot operator of the language) against Slot::named(name)
+            let op = match std::any::type_name::<L>().rsplit("::").next().unwrap() { "Lb" => "var", "Lp" => "pv", _ => "var" };
+            match Pattern::<L>::parse(&format!("({} {})", op, text)) {
+                Ok(Pattern::ENode(n, _)) => { let ss = n.all_slot_occurrences(); if ss.len() == 1 && text.starts_with('$') { let want = Slot::named(&text[1..]); if ss[0] == want { format!("ok same {}", ss[0]) } else { format!("ok differs parsed={} named={}", ss[0], want) } } else { "err".to_string() } }
+                _ => "err".to_string(),
+            }
+        }
         "multi" => match MultiPattern::<L>::parse(text) { Ok(p) => format!("ok wf=true {}", p), Err(_) => "err".to_string() },
         "roundtrip" => match Pattern::<L>::parse(text) { Ok(p) => { let t2 = p.to_string(); match Pattern::<L>::parse(&t2) { Ok(p2) => format!("ok same={} {}", p2.to_string() == t2 && p2 == p, t2), Err(_) => format!("reparse-err {}", t2) } }, Err(_) => "err".to_string() },
         "multirt" => match MultiPattern::<L>::parse(text) { Ok(p) => { let t2 = p.to_string(); match MultiPattern::<L>::parse(&t2) { Ok(p2) => format!("ok same={} {}", p2.to_string() == t2, t2), Err(_) => format!("reparse-err {}", t2) } }, Err(_) => "err".to_string() },
